@@ -1169,6 +1169,9 @@ class Interp:
         o = CMPOPS.get(type(op))
         if o is None:
             raise Unsupported("compare op")
+        if type(a).__name__ == "MaskedSel" and not type(b).__name__ == "MaskedSel":
+            # elementwise predicate over the selected rows (only any()/all() can consume it)
+            return a.map(lambda t: binop(o, t, b))
         if isinstance(a, SymTensor) or isinstance(b, SymTensor):
             return binop(o, a, b)
         if a is None or b is None:
